@@ -65,6 +65,9 @@ def histories(strict=False, guaranteed_bias=False, max_ticks=40):
         # the client's socket refuses a few datagrams (BlockingIOError from sendto: full send buffer of a non-blocking socket);
         # the numbers count the client's sendto() calls from the start of the adversarial phase.  The unchanged library lets
         # the exception reach the application, which carries on; for the protocol the datagram is lost before the wire
+        # datagram counters of both directions positioned shortly before the 16-bit wrap once the handshake is over (white-box
+        # write, as in C03/C04; 0 = left alone): acks, ack bitmaps, retransmissions and timeouts straddle 65535 -> 1
+        "pos": st.sampled_from([0, 0, 0, 65490, 65515, 65530]),
         "send_faults": st.one_of(st.just([]), st.just([]), st.lists(st.integers(1, 120), min_size=1, max_size=4, unique=True)),
         "burst": st.one_of(st.none(), st.none(), st.none(), st.fixed_dictionaries({
             "tick": st.integers(0, max_ticks), "side": st.sampled_from(["c", "s"]), "count": st.sampled_from([40, 257, 300, 420]),
@@ -128,6 +131,21 @@ def run(ctx, c, oracle, per_step=None, link_setup=None, payload_fn=None):
             ch.udp.setMessageTimeout(c_mt[0])
         f.ch = ch
         sconn = w.server_conn(ch.laddr)
+        f.positioned = 0
+        f.n_first = 0
+        if c.get("pos") and not c.get("on_connect"):
+            w.run(0.3, 0.017)          # nothing of the handshake is in flight any more
+            if not any(cn.pending_callbacks or cn.outgoing_messages or cn.pending_retry_msg for cn in (ch.conn, sconn)):
+                # (only keep-alive datagrams may still await their ack; they resolve as acked or timed out like any other)
+                # the keep-alive datagrams still awaiting an ack carry numbers of the OLD numbering (5, 6, ...), which the new
+                # numbering reaches again right after the wrap: resolve them first, with the library's own routine
+                for cn in (ch.conn, sconn):
+                    for stale in list(cn.pending_acks):
+                        cn._handle_timeout(stale)
+                W.position_seq(ch.conn, sconn, c["pos"])
+                W.position_seq(sconn, ch.conn, c["pos"])
+                f.positioned = c["pos"]
+                f.n_first = len(w.net.log)     # datagrams of the old numbering are never replayed (C04 does the same)
         f.watch = {"c": W.ConnWatch(ch.conn, w.clock), "s": W.ConnWatch(sconn, w.clock)}
         f.conns = {"c": ch.conn, "s": sconn}
         P, F = Packet.MAX_PAYLOAD_SIZE, Packet.MAX_FRAGMENT_SIZE
@@ -268,7 +286,7 @@ def run(ctx, c, oracle, per_step=None, link_setup=None, payload_fn=None):
             step()
             for target, which in by_tick.get(ti, ()):
                 dst = ch.laddr if target == "client" else w.server_addr
-                pool = [em for em in w.net.log if em.dst == dst and em.key is not None]
+                pool = [em for em in w.net.log[f.n_first:] if em.dst == dst and em.key is not None]
                 if pool:
                     em = pool[min(int(which * len(pool)), len(pool) - 1)]
                     w.net.push(w.clock.t + 0.001, em.dst, em.src, em.data)
